@@ -839,8 +839,10 @@ func (c *Context) Ln(d, x *Decimal) (Condition, error) {
 
 	// tmp1 = z - 1
 	ed.Sub(&tmp1, &z, decimalOne)
-	// tmp3 = 0.1
-	tmp3.SetFinite(1, -1)
+	// tmp3 = 0.2. Just above 1.1 the rescaled computation ln(z/10) + ln(10)
+	// would cancel both guard digits, so the power series (which still
+	// converges rapidly there) covers that range as well.
+	tmp3.SetFinite(2, -1)
 
 	usePowerSeries := false
 
